@@ -32,7 +32,9 @@ theorem cmdLoop_no_kill (e : Env) (hk : e.killAt = none) (cs : List Cmd) (k : Na
     simp only [reduceCtorEq, if_false]
     split
     · simp
-    · exact ih _ _ _
+    · split
+      · simp
+      · exact ih _ _ _
 
 theorem runBody_skipped (i : Nat) (t : Task) (dry : Bool) (e : Env) (s : State) :
     (runBody cfg H pr i t dry e s).2.skipped = false := by
@@ -41,7 +43,7 @@ theorem runBody_skipped (i : Nat) (t : Task) (dry : Bool) (e : Env) (s : State) 
   split
   · rfl
   · split
-    · rfl
+    · split <;> rfl
     · split <;> rfl
 
 /-- a `run` reports "up to date" only when the check said so -/
@@ -58,27 +60,50 @@ def Cs (t : Task) : Prop := t.method = .checksum ∧ t.sources.isEmpty = false
 
 instance (t : Task) : Decidable (Cs t) := by unfold Cs; infer_instance
 
+/-- the task is fingerprinted with method timestamp -/
+def Ts (t : Task) : Prop := t.method = .timestamp ∧ t.sources.isEmpty = false
+
+instance (t : Task) : Decidable (Ts t) := by unfold Ts; infer_instance
+
+theorem not_cs_of_ts {t : Task} (h : Ts t) : ¬ Cs t := fun hc => by
+  have := h.1; rw [hc.1] at this; cases this
+
 theorem onError_sums (t : Task) (s : State) :
     (onError t s).sums = if Cs t then adel s.sums (sumKey t) else s.sums := by
   unfold onError
-  by_cases hc : Cs t
-  · rw [if_pos hc]
-    obtain ⟨hm, hs⟩ := hc
-    simp [hm, hs]
-  · rw [if_neg hc]
-    unfold Cs at hc
-    split
-    · rename_i hm
-      have : t.sources.isEmpty = true := by
-        cases h : t.sources.isEmpty
-        · exact absurd ⟨hm, h⟩ hc
-        · rfl
-      simp [this]
-    · rfl
+  split
+  · rename_i hm
+    by_cases hs : t.sources.isEmpty = true
+    · simp [Cs, hs]
+    · simp [Cs, hm, hs]
+  · rename_i hm
+    simp only [Cs, hm, reduceCtorEq, false_and, if_false]
+    split <;> rfl
+  · rename_i hm
+    simp [Cs, hm]
+
+/-- `statusOnError` for a timestamp task (TS3): the marker is removed -/
+theorem onError_marks (t : Task) (s : State) :
+    (onError t s).marks = if Ts t then adel s.marks (tsKey t) else s.marks := by
+  unfold onError
+  split
+  · rename_i hm
+    simp only [Ts, hm, reduceCtorEq, false_and, if_false]
+    split <;> rfl
+  · rename_i hm
+    by_cases hs : t.sources.isEmpty = true
+    · simp [Ts, hs]
+    · simp [Ts, hm, hs]
+  · rename_i hm
+    simp [Ts, hm]
 
 theorem onError_log (t : Task) (s : State) : (onError t s).log = s.log := by
   unfold onError
   cases t.method <;> simp <;> split <;> rfl
+
+theorem onError_files (t : Task) (s : State) : (onError t s).files = s.files ∧ (onError t s).dirs = s.dirs := by
+  unfold onError
+  cases t.method <;> simp <;> split <;> simp
 
 /-- the prompt (if any) is answered yes and the process is not killed -/
 def Passes (t : Task) (e : Env) : Prop := (t.prompt = false ∨ e.yes = true) ∧ e.killAt = none
@@ -104,11 +129,14 @@ theorem runBody_declined (i : Nat) (t : Task) (e : Env) (s : State) (hd : Declin
   simp [runBody, hd.1, hd.2]
 
 /-- **effect of the body**: one attempt is logged at the fingerprint of the state it started
-from; on success the stores are untouched, on failure `OnError` removes the checksum. -/
+from, at the time of the invocation; on success the stores are untouched, on failure `OnError`
+removes the checksum (method checksum) / the marker (method timestamp). -/
 theorem runBody_effect (i : Nat) (t : Task) (e : Env) (s : State) (hp : Passes t e) :
     ∃ ok, (runBody cfg H pr i t false e s).1.log = s.log ++ [⟨i, fpNow H pr t s.files, e.now, ok⟩] ∧
-      (ok = true → (runBody cfg H pr i t false e s).1.sums = s.sums) ∧
-      (ok = false → (runBody cfg H pr i t false e s).1.sums = if Cs t then adel s.sums (sumKey t) else s.sums) := by
+      (ok = true → (runBody cfg H pr i t false e s).1.sums = s.sums ∧ (runBody cfg H pr i t false e s).1.marks = s.marks) ∧
+      (ok = false → (runBody cfg H pr i t false e s).1.sums = (if Cs t then adel s.sums (sumKey t) else s.sums) ∧
+        (runBody cfg H pr i t false e s).1.marks = (if Ts t then adel s.marks (tsKey t) else s.marks) ∧
+        (runBody cfg H pr i t false e s).2.exit = .failed) := by
   obtain ⟨hprompt, hk⟩ := hp
   have hcond : (t.prompt && !false && !e.yes) = false := by
     rcases hprompt with h | h <;> simp [h]
@@ -120,13 +148,13 @@ theorem runBody_effect (i : Nat) (t : Task) (e : Env) (s : State) (hp : Passes t
   | done =>
     refine ⟨true, ?_, ?_, ?_⟩
     · simp [hmk.1, hmk.2.2.1]
-    · intro _; simp [hmk.2.1]
+    · intro _; simp [hmk.2.1, hmk.2.2.2]
     · intro h; cases h
   | failed =>
     refine ⟨false, ?_, ?_, ?_⟩
     · simp [onError_log, hmk.1, hmk.2.2.1]
     · intro h; cases h
-    · intro _; rw [onError_sums]; simp [hmk.2.1]
+    · intro _; rw [onError_sums, onError_marks]; simp [hmk.2.1, hmk.2.2.2]
 
 /-- what the non-dry up-to-date check does to the checksum store and the log -/
 theorem isUpToDate_effect (t : Task) (now : Nat) (s : State) :
@@ -176,7 +204,7 @@ theorem isUpToDate_effect (t : Task) (now : Nat) (s : State) :
     exact ⟨rfl, rfl, fun x _ => rfl, fun h => absurd h hncs, fun _ => rfl⟩
 
 theorem applyOp_fields (o : Op) (s : State) :
-    (applyOp pr o s).sums = s.sums ∧ (applyOp pr o s).log = s.log := by
+    (applyOp pr o s).sums = s.sums ∧ (applyOp pr o s).log = s.log ∧ (applyOp pr o s).marks = s.marks := by
   cases o <;> simp only [applyOp] <;> (try split) <;> simp
 
 end TaskModel.Finger
